@@ -33,13 +33,14 @@ MASS_UNITS = ['gram/mole', 'kilogram/mole', 'gram', 'dalton']
 
 def spec_strategy():
     val = st.one_of(specs.logfloat(-3, 3, 8), specs.logfloat(-3, 3, 8).map(lambda v: -v), st.sampled_from([0.0, 1.0, 2.0, 0.5]))
+    a1 = st.lists(val, min_size=1, max_size=6).map(lambda v: {'kind': 'array1', 'v': v})
+    a2 = st.tuples(st.integers(1, 3), st.integers(1, 3), st.lists(val, min_size=9, max_size=9)).map(
+        lambda t: {'kind': 'array2', 'shape': [t[0], t[1]], 'v': t[2][:t[0] * t[1]]})
     arg = st.one_of(
+        a1, a2, a1,
         val.map(lambda v: {'kind': 'float', 'v': v}),
         st.integers(-5, 40).map(lambda v: {'kind': 'int', 'v': v}),
-        val.map(lambda v: {'kind': 'np', 'v': v}),
-        st.lists(val, min_size=1, max_size=6).map(lambda v: {'kind': 'array1', 'v': v}),
-        st.tuples(st.integers(1, 3), st.integers(1, 3), st.lists(val, min_size=9, max_size=9)).map(
-            lambda t: {'kind': 'array2', 'shape': [t[0], t[1]], 'v': t[2][:t[0] * t[1]]}))
+        val.map(lambda v: {'kind': 'np', 'v': v}))
     return st.fixed_dictionaries({
         'dc': st.one_of(specs.logfloat(-3, 3, 6), st.sampled_from([1.0, 1.5, 0.25])),
         'dc_unit': st.sampled_from(sorted(LENGTH_UNITS)),
